@@ -6,7 +6,7 @@ from vlib import render as RR
 
 ID = "C06"
 # look-alikes of prelude names (vlib/defs.py HOSTILE) this check's derives are immune to on the unchanged tree
-HOSTILE_OK = ['Default', 'From', 'Into', 'Result', 'Option', 'Some', 'Ok', 'Iterator', 'Clone', 'AsRef', 'Send', 'PhantomData', 'IterGet', 'm_matches', 'm_assert', 'm_fmt']
+HOSTILE_OK = ['Default', 'From', 'Into', 'Result', 'Option', 'Some', 'Ok', 'Iterator', 'Clone', 'AsRef', 'Send', 'PhantomData', 'IterGet', 'm_matches', 'm_assert', 'm_fmt', 'c_binders', 'no_implicit_prelude']
 PROP_FILE = "Props/C06.v"
 THEOREMS = ["C06_iff", "C06_none", "C06_roundtrip", "C06_const", "C06_total", "C06_nonvacuous"]
 RULE = ("definitions: repr type x explicit/implicit discriminant shapes (negative, gapped, descending, expression-valued) "
